@@ -59,6 +59,8 @@ pub async fn insert_and_maybe_flush(
             "Queuing passive MemTable for flush"
         );
 
+        #[cfg(sneldb_verif)]
+        crate::verif_hooks::step_async("insert.rotated").await;
         let flush_id = ctx.flush_progress.next_id();
 
         ctx.flush_manager
@@ -72,6 +74,8 @@ pub async fn insert_and_maybe_flush(
             )
             .await?;
 
+        #[cfg(sneldb_verif)]
+        crate::verif_hooks::step_async("insert.queued").await;
         // Opportunistic pruning: every max_inflight/2 rotations
         let prune_every = std::cmp::max(1, ctx.passive_buffers.max_inflight() / 2);
         if (ctx.segment_id as usize) % prune_every == 0 {
